@@ -43,3 +43,26 @@ Proof.
            (ser digest V H lvl_of Val vh) (ser_RL digest V H lvl_of Hl Val vh)).
 Qed.
 Print Assumptions C05_rounds.
+
+(* under a linear join the state both replicas reach is exactly the pointwise join of the initial contents
+   (and, being the same store, they report the same root hash: the tree is a function of the store, C01) *)
+From MST Require Import SyncModel SyncLimit SyncJoin.
+Theorem C05_join_result :
+  forall (digest V : Type) (H : list (tok digest V) -> digest) (lvl_of : N -> N),
+  (forall k : N, lvl_of k < 255) ->
+  forall deqb : digest -> digest -> bool, (forall a b : digest, deqb a b = true <-> a = b) ->
+  (forall a b : list (tok digest V), H a = H b -> a = b) ->
+  forall (Val : Type) (val_dec : forall a b : Val, {a = b} + {a <> b}) (vh : Val -> V),
+  (forall a b : Val, vh a = vh b -> a = b) ->
+  forall merge : Val -> Val -> Val,
+  (forall o x : Val, merge o x = o \/ merge o x = x) ->
+  (forall o x : Val, merge o x = merge x o) ->
+  (forall a b c : Val, merge a (merge b c) = merge (merge a b) c) ->
+  forall (U : list N) (n : nat) (a b : store Val),
+  store_ok Val a -> store_ok Val b ->
+  (forall k : N, In k (skeys Val a) -> In k U) -> (forall k : N, In k (skeys Val b) -> In k U) ->
+  (dis Val val_dec U a b <= n)%nat ->
+  sync_rounds digest deqb Val merge (ser digest V H lvl_of Val vh) n a b =
+    Ok (pointwise_join Val merge a b, pointwise_join Val merge a b).
+Proof. exact SyncJoin.C05_join_result. Qed.
+Print Assumptions C05_join_result.
